@@ -125,7 +125,23 @@ func (s *Sim) Run(t *rapid.T, o RunOpts) error {
 			}
 		}
 		if !o.NoFees {
-			acts = append(acts, act{"fee", 1})
+			// Fee updates are rare in general but frequent while the
+			// opener's last signature (which covered a fee update) is
+			// still unacknowledged: two fee updates on different
+			// commitments around a reload is a historically buggy
+			// cell.
+			w := 1
+			op := s.P.Opener()
+			if s.Unacked(op) && len(s.M.Sigs[op]) > 0 {
+				rec := s.M.Sigs[op][len(s.M.Sigs[op])-1]
+				for _, u := range s.M.U[op][rec.PrevOwn:rec.Own] {
+					if u.Kind == UFee {
+						w = 6
+						s.label("fee_update_in_flight")
+					}
+				}
+			}
+			acts = append(acts, act{"fee", w})
 		}
 		acts = append(acts, act{"drain", 1})
 		if o.Cuts {
